@@ -1,3 +1,4 @@
+import SJ.Proofs.Utf8
 import SJ.Proofs.Earliest
 /-!
 # Completions of string states
